@@ -504,6 +504,19 @@ def run_coneqp_family(ctx):
                 ctx.count("qp.zero-optimum")
         sparse = rng.random() < 0.4
         junk = rng.random() < 0.4
+        zeroG = False
+        if (not noineq and d.N and getattr(pr, "rankP", None) == pr.n and getattr(pr, "pl", None) and all(k_ in pr.pl for k_ in "xyz")
+                and rng.random() < 0.06):
+            # inequality rows that are all zero (0 <=_K h with h strictly inside the cone), stored as a sparse matrix with no
+            # entries: still m rows - s and z have m entries and h, dims stay the caller's (P is definite: rank condition holds)
+            hz = cone.symmetrize(cone.random_interior(rng, d, 0.5, 2.0), d)
+            qz = -(pr.P @ pr.pl["x"]) - pr.A.T @ pr.pl["y"]
+            pz = gp.Prob(c=qz, G=np.zeros_like(pr.G), h=hz, A=pr.A, b=pr.b, dims=d, kind=pr.kind)
+            pz.P, pz.q, pz.rankP = pr.P, qz, pr.rankP
+            pz.pl = {"x": pr.pl["x"], "y": pr.pl["y"], "s": hz, "z": pr.pl["z"], "structurally-sparse": True}
+            pr = pz
+            zeroG, sparse, junk = True, True, False
+            ctx.count("qp.all-zero-sparse-G")
         opts, oclass = gen_options(rng, d)
         names = ["ldl", "ldl2", "chol"] + ([] if (d.q or d.s) else ["chol2"])
         r = rng.random()
